@@ -461,6 +461,31 @@ pub fn check(tape: &[u32]) -> CheckResult {
     Ok(o)
 }
 
+/// What a PaletteMapper built from the file's palette answers for every palette colour (feature `utils`); "-" when
+/// the feature is off or the file has no palette. With duplicate colours any matching index is a correct answer, but
+/// the same bytes must give the same answers in every load, build and process.
+#[cfg(feature = "utils")]
+pub fn mapper_digest(f: &AsepriteFile) -> String {
+    use asefile::util::{MappingOptions, PaletteMapper};
+    match f.palette() {
+        None => "-".into(),
+        Some(p) => {
+            let m = PaletteMapper::new(p, MappingOptions { failure: 0, transparent: None });
+            let mut v = vec![];
+            for id in 0..p.num_colors().min(1024) + 300 {
+                if let Some(e) = p.color(id) {
+                    v.push(m.lookup(e.red(), e.green(), e.blue(), 255));
+                }
+            }
+            format!("{:016x}", h(&format!("{:?}", v)))
+        }
+    }
+}
+#[cfg(not(feature = "utils"))]
+pub fn mapper_digest(_f: &AsepriteFile) -> String {
+    "-".into()
+}
+
 /// Digest of the observation of one seeded case (for the cross-profile differential).
 pub fn digest_case(seed: u64, i: u64) -> String {
     let mut r = Rng(mix(seed, i));
@@ -500,7 +525,7 @@ pub fn digest_case(seed: u64, i: u64) -> String {
                     }
                 }
             }
-            format!("ok:{:016x}:{:016x}", h(&format!("{:?}", o)), h(&format!("{:?}", extra)))
+            format!("ok:{:016x}:{:016x}:{}", h(&format!("{:?}", o)), h(&format!("{:?}", extra)), mapper_digest(&f))
         }
     });
     match r {
@@ -698,7 +723,9 @@ pub fn run(run: &mut Run) {
                 loaded += 1;
             }
             for (p, d) in &digests[1..] {
-                if d.get(i) != Some(a) {
+                // the build without the `utils` feature has no PaletteMapper: compare all but the last field
+                let strip = |s: &String| -> String { if *p == "noutils" && s.contains(" ok:") { s.rsplitn(2, ':').nth(1).unwrap_or(s).to_string() } else { s.clone() } };
+                if d.get(i).map(&strip) != Some(strip(a)) {
                     let f = Failure::new("profile-dependent", format!("case {} observed differently by builds: checked = {:?}, {} = {:?}", i, a, p, d.get(i))).with(json!({"seed": seed, "case": i}));
                     run.direct(|| json!({"digest_case": i, "digest_seed": seed}), Err(f));
                 }
